@@ -252,6 +252,15 @@ def gen_hwmon_case(r):
         sels.append(gen_sensor_sel(r, chips))
     sels = r.shuffle(sels)
     ops += sels
+    # several sensor entries in ONE initializeSensors call (an entry must not inherit anything from an earlier one)
+    ssel = [x for x in sels if x.startswith("hw.bindsensor ")]
+    for _ in range(2):
+        pick = [r.pick(ssel) for _ in range(r.range(2, 4))]
+        toks = []
+        for x in pick:
+            kvs = dict(t.split("=", 1) for t in x.split()[1:])
+            toks.append(f"{kvs.get('platform', '')}:{kvs.get('index', '0')}")
+        ops.append("hw.bindsensors sels=" + ";".join(toks))
     if len(chips) > 1:
         # same tree, chips enumerated in another order, same selectors
         ops.append(f"hw.tree spec={tree_tok(r.shuffle(chips))}")
